@@ -27,6 +27,8 @@ func ByNames(names []string) []Script {
 			out = append(out, &OLVM{OneTx: true})
 		case "olvm":
 			out = append(out, &OLVM{})
+		case "staking-exit":
+			out = append(out, &Staking{Exit: true})
 		case "stakingb":
 			out = append(out, &Staking{Boundary: true})
 		case "ons":
